@@ -6,7 +6,7 @@
    [stream_length], StreamContentP [stream_content] of Model/Prim.v, `endobj`, duplicate-id check).
    [declared ctx d] = Some l  iff the /Length of dictionary d resolves — directly or through the
    objects [ctx] already defined — to the non-negative integer l. *)
-From PV Require Import Model.Obj Proofs.PrimTok Proofs.ObjStream.
+From PV Require Import Model.Obj Proofs.PrimTok Proofs.ObjStream Proofs.ObjIndTotal.
 
 (* FRAMING — for EVERY payload (it may contain `endstream`, `endobj`, anything): after
    `stream` + LF or CRLF, exactly the declared number of bytes are the data, an optional CR / LF /
@@ -112,6 +112,26 @@ Theorem C05_endstream_required : forall ctx d os s c l,
   stream_tail ctx d os s c = PErr EGuard c.
 Proof. exact stream_tail_no_endstream. Qed.
 
+(* TOTALITY — parse_pdf_indirect_obj (IndirectP::parse incl. the leading whitespace) reaches no panic
+   site (assert / unwrap / index / `panic!("can never happen")`) and never exhausts the model's fuel, for
+   ALL inputs, cursors, depth budgets and contexts; a successful parse stays inside the buffer.  Debug
+   builds need the input below 2 GiB (RawLiteralString's i32 nesting counter); release builds nothing. *)
+Theorem C05_total : forall rel b ctx s c,
+  (Z.of_nat (len s) < 2147483648)%Z -> c <= len s ->
+  indirect_p rel b ctx s c <> PPanic /\ indirect_p rel b ctx s c <> PFuel /\
+  (forall v c', indirect_p rel b ctx s c = POk v c' -> c <= c' /\ c' <= len s).
+Proof. exact indirect_p_total. Qed.
+
+Theorem C05_total_release : forall b ctx s c,
+  c <= len s -> indirect_p true b ctx s c <> PPanic /\ indirect_p true b ctx s c <> PFuel.
+Proof. exact indirect_p_total_release. Qed.
+
+(* … and so is IndirectP::parse_internal on its own *)
+Theorem C05_total_internal : forall rel b ctx s c,
+  (Z.of_nat (len s) < 2147483648)%Z -> c <= len s ->
+  indirect_internal rel b ctx s c <> PPanic /\ indirect_internal rel b ctx s c <> PFuel.
+Proof. exact indirect_internal_total. Qed.
+
 (* the hypotheses are satisfiable: a payload that contains the framing keywords *)
 Example C05_example :
   indirect_p false 10 [((7, 0)%N, OInt 18)] (B "1 0 obj<</Length 7 0 R>>stream" ++ [13; 10]%N ++ B "endstream endobj x" ++ B "endstream endobj") 0
@@ -127,3 +147,6 @@ Print Assumptions C05_errors_propagate.
 Print Assumptions C05_declared_too_long.
 Print Assumptions C05_cr_only_rejected.
 Print Assumptions C05_endstream_required.
+Print Assumptions C05_total.
+Print Assumptions C05_total_release.
+Print Assumptions C05_total_internal.
